@@ -819,6 +819,16 @@ fn run_history(tree: &Tree, base: &Baseline, ops: &[usize]) -> (Option<(String, 
 				return (Some(("history: an injected resolver failure does not surface as that error".into(), at(&format!("observed {}", o.out.short())))), m, outs);
 			}
 		} else if !same_outcome(&o.out, &base.obs[op].out) {
+			if let Out::Err(_, msg) = &o.out {
+				if msg.contains("INJECTED") {
+					// no fault fired in this step: the failure of an earlier step is served again from a cache
+					return (
+						Some(("history: an injected resolver failure that has cleared is reported again on retry".into(), at(&format!("fresh state gives {}, this state gives {}\nlog {:?}", base.obs[op].out.short(), o.out.short(), o.log)))),
+						m,
+						outs,
+					);
+				}
+			}
 			let kind = match (&base.obs[op].out, &o.out) {
 				(Out::Json(_), Out::Json(_)) => "different value".to_owned(),
 				(Out::Json(_), Out::Err(c, _)) => format!("value in a fresh state, error {c} here"),
